@@ -148,7 +148,7 @@ Proof.
 Qed.
 
 (** ** the whole call *)
-(** the two [Permutation] hypotheses say that the call is a true reordering: every block and
+(** the two [Permutation] premises say that the call is a true reordering: every block and
     every connection is named exactly once *)
 Theorem reorder_inv g bns cns g' : Inv g -> reorder g bns cns = Ok g' ->
   Permutation (blist g) (blist g') -> Permutation (clist g) (clist g') -> Inv g'.
@@ -173,7 +173,7 @@ Proof.
       apply inv_perm_clist; [exact I2|]. rewrite Ec. exact Pc.
 Qed.
 
-(** ** input-side form of the block hypothesis *)
+(** ** input-side form of the block premise: the given names are a permutation of the current block names *)
 Lemma NoDup_map_inj_in {A B} (f : A -> B) l :
   (forall x y, In x l -> In y l -> f x = f y -> x = y) -> NoDup l -> NoDup (map f l).
 Proof.
@@ -208,7 +208,7 @@ Proof.
   { apply (NoDup_map_inv (bn g)). eapply Permutation_NoDup; [apply Permutation_sym; exact P|exact NDm]. }
   apply NoDup_Permutation; [exact NDb|exact NDl|]. intro x. split; [|apply Hin].
   intro Hx. assert (Hm : In (bn g x) (map (bn g) l)).
-  { eapply Permutation_in; [apply Permutation_sym; exact P|]. apply in_map. exact Hx. }
+  { eapply Permutation_in; [apply Permutation_sym; exact P|]. apply List.in_map. exact Hx. }
   apply in_map_iff in Hm. destruct Hm as [y [E Hy]].
   rewrite <- (inv_bn_inj g y x I (Hin y Hy) Hx E). exact Hy.
 Qed.
